@@ -286,6 +286,76 @@ example : parseCsv (itemsetsCsv [c!"list_name", c!"name", c!"a"]
     [[(c!"list_name", c!"e"), (c!"a", c!"x\"y,\nz")], [(c!"name", c!"n"), (c!"list_name", c!"e")]])
     = [[c!"list_name", c!"name", c!"a"], [c!"e", [], c!"x\"y,\nz"], [c!"e", c!"n", []]] := by decide +kernel
 
+/-! ## from the raw cells: `parameters` parsing and header dealiasing inside the model -/
+
+theorem startsWith_append (p k : Str) : startsWith (p ++ k) p = true := by
+  induction p with
+  | nil => cases k <;> simp [startsWith]
+  | cons c cs ih => simp [startsWith, ih]
+
+theorem paramsOf_append (a b : Cells) : paramsOf (a ++ b) = paramsOf a ++ paramsOf b := by
+  simp [paramsOf, List.filterMap_append]
+
+theorem paramsOf_prefixed (ps : Cells) :
+    paramsOf (ps.map fun kv => (c!"parameters::" ++ kv.1, kv.2)) = ps := by
+  induction ps with
+  | nil => rfl
+  | cons kv rest ih =>
+    have h := startsWith_append c!"parameters::" kv.1
+    simp only [paramsOf, List.map_cons, List.filterMap_cons] at ih ⊢
+    rw [h]
+    simp only [if_true]
+    rw [ih]
+    simp
+
+/-- The parameters a select sees are exactly `parameters_generic.parse` of the raw `parameters` cell
+    (`Pyxv.Controls.parseParams`), in the order of the cell. -/
+theorem params_from_raw_cell (r r' : Cells) (raw : Str) (ps : Cells)
+    (h1 : lookup c!"parameters" r = some raw) (hA : Controls.isAscii raw = true)
+    (h2 : Controls.parseParams raw = some ps) (h3 : expandParams r = some r')
+    (h4 : paramsOf (r.filter fun kv => kv.1 ≠ c!"parameters") = []) :
+    paramsOf r' = ps := by
+  simp only [expandParams, h1, hA, h2] at h3
+  simp at h3
+  subst h3
+  simp at h4
+  have hp := paramsOf_prefixed ps
+  simp at hp
+  rw [paramsOf_append, h4, hp]
+  rfl
+
+/-- The itemset nodeset stated from the raw `parameters` cell: for every raw cell that parses, the nodeset is
+    the decision table's for the parsed parameters. -/
+theorem itemset_nodeset_raw (r r' : Cells) (raw : Str) (ps : Cells) (q : SelIn)
+    (h1 : lookup c!"parameters" r = some raw) (hA : Controls.isAscii raw = true)
+    (h2 : Controls.parseParams raw = some ps) (h3 : expandParams r = some r')
+    (h4 : paramsOf (r.filter fun kv => kv.1 ≠ c!"parameters") = [])
+    (hq : q.params = paramsOf r') :
+    (itemsetOf q).nodeset = Spec.nodeset { q with params := ps } := by
+  have := params_from_raw_cell r r' raw ps h1 hA h2 h3 h4
+  rw [itemset_nodeset]
+  congr 1
+  cases q; simp_all
+
+example : (expandParams [(c!"type", c!"select_one l"), (c!"parameters", c!"randomize=true, seed=4")]).map paramsOf
+    = some [(c!"randomize", c!"true"), (c!"seed", c!"4")] := by decide +kernel
+
+/-! header dealiasing of the columns this slice reads (alias tables regenerated from the source) -/
+theorem choices_headers_canon :
+    canonKey false Headers.listAliases Headers.listColumns c!"list_name" = some c!"list name" ∧
+    canonKey false Headers.listAliases Headers.listColumns c!"list name" = some c!"list name" ∧
+    canonKey false Headers.listAliases Headers.listColumns c!"image" = some c!"media::image" ∧
+    canonKey true Headers.listAliases Headers.listColumns c!"label::en" = some c!"label::en" ∧
+    canonKey false Headers.listAliases Headers.listColumns c!"my_col" = some c!"my_col" := by decide +kernel
+
+theorem survey_headers_canon :
+    canonKey false Headers.surveyAliases Headers.surveyColumns c!"relevant" = some c!"bind::relevant" ∧
+    canonKey false Headers.surveyAliases Headers.surveyColumns c!"calculation" = some c!"bind::calculate" ∧
+    canonKey false Headers.surveyAliases Headers.surveyColumns c!"read_only" = some c!"bind::readonly" ∧
+    canonKey false Headers.surveyAliases Headers.surveyColumns c!"appearance" = some c!"control::appearance" ∧
+    canonKey false Headers.surveyAliases Headers.surveyColumns c!"choice_filter" = some c!"choice_filter" ∧
+    canonKey false Headers.surveyAliases Headers.surveyColumns c!"parameters" = some c!"parameters" := by decide +kernel
+
 /-! ## cleaning of the choices / external_choices cells -/
 
 theorem smart_quotes_table :
